@@ -2,6 +2,7 @@
 //! `OP args :: implementation answer` lines for the Lean driver.
 mod c08;
 mod c10;
+mod c12;
 mod c13;
 mod defs;
 mod gen;
@@ -31,6 +32,7 @@ fn run_line(state: &mut parse::RunState, request: &str) -> Option<(String, Strin
             })
         }
         Some("SPLIT") => c10::run_request(&words),
+        Some("CMAP_LOAD") | Some("NORMS") => c12::run_request(state, &words),
         Some("DEF") => parse::run_def(state, &words).map(|a| (request.to_string(), a)),
         Some("ENC") | Some("DEC") | Some("BPE") | Some("UNI") | Some("WP") => parse::run_encdec(state, &words),
         _ => None,
@@ -56,6 +58,7 @@ fn main() {
                 "C03" | "C04" | "C05" | "C06" => pieces::gen(prop, &mut rng, thorough, &mut out),
                 "C08" => c08::gen(&mut rng, thorough, &mut out),
                 "C10" => c10::gen(&mut rng, thorough, &mut out),
+                "C12" => c12::gen(&mut rng, thorough, &mut out),
                 "C13" => c13::gen(&mut rng, thorough, &mut out),
                 "SMOKE" => smoke::gen(&mut rng, thorough, &mut out),
                 _ => {
